@@ -46,7 +46,7 @@ V6_DELETES = ["V6_api.delete_func.*", "V6_api.fn:Module::delete_func", "V6_api.F
 V8_BASE = ["V8_lower.fn:lemma_*", "V8_lower.fn:FunctionModifier as *", "V8_lower.fn:Instrumenter::*", "V8_lower.fn:Inject::inject", "V8_lower.fn:Opcode::*",
            "V8_lower.fn:InstrumentationFlag::*", "V8_lower.fn:Instruction::add_instr", "V8_lower.fn:FuncInstrFlag::add_instr", "V8_lower.fn:v_inject_all"]
 LOWER_GLUE = ["Module::resolve_special_instrumentation: the per-function driver (block stack, which helper runs at which instruction, delete_block / retain_end bookkeeping, resolve_on_end maps) is not under contract",
-              "plan_resolution_block_exit, plan_resolution_semantic_after and the save_* helpers use HashMap::entry().and_modify(closure): outside Verus",
+              "the save_* helpers use HashMap::entry().and_modify(closure): outside Verus (assumed where a contract of C19 / C20 needs them)",
               "the final emission of before / alternate / after lists in encode_internal",
               "'fires once when ...' is an execution-trace property: neither verifier has a WebAssembly semantics; what is proved is WHERE each helper places WHICH code (placement contracts written from the property text)",
               "TRUSTED: Inject::inject_all injects the slice in order (closure capturing &mut self)"]
@@ -248,16 +248,19 @@ PROPS = {
     "C19": {
         "title": "Block exit probes fire when the block or arm falls through",
         "units": ["V8_lower"],
-        "obligations": V8_BASE + ["V8_lower.resolve_bodies.*", "V8_lower.fn:resolve_bodies"],
-        "glue": LOWER_GLUE, "design_ref": "DESIGN.md §5 C17-C20",
-        "level_text": "Placement only, and only the emission half: the code saved for a construct's `else`/`end` is emitted into the requested list of that instruction as (flag-guarded chain; unconditional bodies), nothing else changes. WHICH instruction it is saved for (plan_resolution_block_exit) is not under contract.",
+        "obligations": V8_BASE + ["V8_lower.resolve_bodies.*", "V8_lower.fn:resolve_bodies", "V8_lower.plan_resolution_block_exit.*", "V8_lower.fn:plan_resolution_block_exit"],
+        "glue": LOWER_GLUE + ["ASSUMED: the contracts of save_not_flagged_body_to_resolve{,_inner} (HashMap entry().and_modify(closure).or_insert() chains): they add the body, unflagged, under (block, mode) and touch nothing else"],
+        "design_ref": "DESIGN.md §5 C17-C20",
+        "level_text": "Placement only. Registration: the probe of an `if` is due at its else-or-end, that of a block / loop / else before the `end` of that very construct (innermost open one), unflagged, nothing for other instructions. Emission: the code saved for a construct's `else`/`end` is emitted into the requested list of that instruction as (flag-guarded chain; unconditional bodies), nothing else changes. The driver that pairs the two (block stack, resolve at Else/End) is glue.",
     },
     "C20": {
         "title": "Semantic-after probes fire exactly once after the instruction",
         "units": ["V8_lower"],
-        "obligations": V8_BASE + ["V8_lower.create_bool_flag.*", "V8_lower.fn:create_bool_flag", "V8_lower.fn:add_local", "V8_lower.resolve_bodies.*", "V8_lower.fn:resolve_bodies"],
-        "glue": LOWER_GLUE, "design_ref": "DESIGN.md §5 C17-C20",
-        "level_text": "Placement only: a fresh i32 flag is set to 1 before the branch and reset to 0 after it, with the probe body right after the reset for conditional branches (fall-through); at the target's end each saved body is guarded by its flag in an if / else-if chain. Choice of target block (plan_resolution_semantic_after) is not under contract.",
+        "obligations": V8_BASE + ["V8_lower.create_bool_flag.*", "V8_lower.fn:create_bool_flag", "V8_lower.fn:add_local", "V8_lower.resolve_bodies.*", "V8_lower.fn:resolve_bodies", "V8_lower.plan_resolution_semantic_after.*", "V8_lower.fn:plan_resolution_semantic_after"],
+        "glue": LOWER_GLUE + ["ASSUMED: the contracts of save_{not_,}flagged_body_to_resolve (HashMap entry chains) and of the br_table target loop (a for_each closure, named brtable_save_targets by rule R11): they add the body under (block, mode), flagged with the given local or unflagged, and touch nothing else",
+                              "TRUSTED model of wasmparser::BrTable: targets() yields br_targets(t), default() is br_default(t)"],
+        "design_ref": "DESIGN.md §5 C17-C20",
+        "level_text": "Placement only. Registration: on block / loop / if / else the probe is due after the `end` of that very construct; on EVERY br / br_if / br_on_* (whatever its target, incl. the function body) a fresh i32 flag is set to 1 before the branch and reset to 0 after it, with the probe body right after the reset for conditional branches (fall-through), and the probe is due, guarded by that flag, at the `end` of block (top - depth); br_table: the same for every target and the default; nothing for other instructions. Emission: at the target's end each saved body is guarded by its flag in an if / else-if chain. The driver that pairs the two is glue.",
     },
     "C21": {
         "title": "Block alternate replaces exactly the selected construct",
@@ -322,7 +325,7 @@ PROPS = {
     },
 }
 
-HOOK_COMMITS = ["6108179", "dd5c5ea"]
+HOOK_COMMITS = ["6108179", "dd5c5ea", "537dc3a", "193503a"]
 
 NOT_APPLICABLE = {
     "C16": "behavioural equivalence of original and instrumented module needs a WebAssembly execution semantics and a simulation proof; neither installed deductive verifier has one, and a syntactic contract cannot express it",
